@@ -227,7 +227,9 @@ def find_subseq(toks, lo, hi, anchor_text):
 def find_subseq_w(toks, lo, hi, anchor_text):
     """like find_subseq, with wildcards: `$1`, `$2`… in the anchor match a non-empty bracket-balanced token run (an
     argument expression) up to the next anchor token; returns (first_tok, last_tok, {n: (first, last)})"""
-    atxt = re.sub(r"\$(\d+)", r" __VXW_\1__ ", anchor_text)
+    atxt = re.sub(r"\$rest\b", " __VXREST__ ", anchor_text)
+    atxt = re.sub(r"\$block\b", " __VXBLOCK__ ", atxt)
+    atxt = re.sub(r"\$(\d+)", r" __VXW_\1__ ", atxt)
     a = [t.text for t in tokenize(atxt) if t.kind not in ("ws", "comment")]
     idx = [k for k in range(lo, hi) if toks[k].kind not in ("ws", "comment")]
     out = []
@@ -241,11 +243,50 @@ def find_subseq_w(toks, lo, hi, anchor_text):
         while j < n:
             if p >= len(idx):
                 ok = False; break
+            if a[j] == "__VXBLOCK__":
+                # `$block`: one brace-delimited block, whatever it contains
+                if toks[idx[p]].text != "{":
+                    ok = False; break
+                depth = 0
+                q = p
+                while q < len(idx):
+                    tx = toks[idx[q]].text
+                    if tx in OPENB: depth += 1
+                    elif tx in CLOSEB:
+                        depth -= 1
+                        if depth == 0: break
+                    q += 1
+                if q >= len(idx):
+                    ok = False; break
+                caps["block"] = (idx[p], idx[q])
+                p = q + 1
+                j += 1
+                continue
+            if a[j] == "__VXREST__":
+                # `$rest` (last element of an anchor): everything up to the end of the enclosing block, statements included
+                if j != n - 1:
+                    ok = False; break
+                depth = 0
+                q = p
+                while q < len(idx):
+                    tx = toks[idx[q]].text
+                    if tx in OPENB: depth += 1
+                    elif tx in CLOSEB:
+                        depth -= 1
+                        if depth < 0: break
+                    q += 1
+                if q == p or q >= len(idx):
+                    ok = False; break
+                p = q
+                j += 1
+                continue
             m = re.fullmatch(r"__VXW_(\d+)__", a[j])
             if m:
                 if j + 1 >= n:
                     ok = False; break
                 nxt = a[j + 1]
+                if nxt == "__VXBLOCK__":
+                    nxt = "{"
                 depth = 0
                 q = p
                 found = False
